@@ -86,3 +86,31 @@ func H_array_history() {
 	sameObs(parts[2], lv(ints(after)), "a different method after `"+muts[mut]+"` sees the array as it is now", false, "")
 	symx.Reach("end")
 }
+
+// H_join_strings: join over lists of strings / nulls incl. EMPTY elements in every position (a
+// separator belongs between every two elements, whatever their text).
+func H_join_strings() {
+	pool := []struct{ lit, text string }{{"\"\"", ""}, {"\"a\"", "a"}, {"null", ""}, {"\"bc\"", "bc"}}
+	L := 1 + symx.Choose("L", 3)
+	sepK := symx.Choose("sep", 4)
+	lit, want := "[", ""
+	sep := []string{",", "-", "", ","}[sepK]
+	for i := 0; i < L; i++ {
+		e := pool[symx.Choose("e"+string(rune('0'+i)), len(pool))]
+		if i > 0 {
+			lit += ", "
+			want += sep
+		}
+		lit += e.lit
+		want += e.text
+	}
+	lit += "]"
+	call := []string{"join(\",\")", "join(\"-\")", "join(\"\")", "join()"}[sepK]
+	res, _, threw, ok := runMethod(lit, call, []sx.Bind{{Name: "pa", V: sx.Int(0)}, {Name: "pb", V: sx.Int(0)}, {Name: "pc", V: sx.Int(0)}})
+	symx.Assert(ok && !threw, call+": call completes")
+	if !ok || threw {
+		return
+	}
+	symx.Assert(len(res) == 1 && res[0].Kind == 's' && res[0].S == want, call+" on "+lit+": every element, empty ones included, is separated from its neighbours")
+	symx.Reach("end")
+}
